@@ -470,7 +470,34 @@ def prelude(tier):
     res = dict(obligations=0, discharged=0, queries=0, solver_s=time.time() - t0, inconclusive=bad, violations=[],
                summary=f"BitArray.pack/sliding_window semantic model compared with the real routine on {n} concrete arrays: {len(bad)} differences")
     _motif_probe(res)
+    _long_pattern_probe(res)
     return res
+
+
+def _long_pattern_probe(res):
+    """match_string with patterns of 8 to 17 letters (beyond the window lengths the symbolic harness explores): windows that agree with
+    the pattern on a prefix of every length and differ in exactly one later letter must not match.  Concrete probes on the real library."""
+    import bionumpy as bnp
+    from bionumpy.sequence.string_matcher import match_string
+    n = 0
+    base = "ACGTTGCAGATTACACG"
+    for L in (8, 9, 10, 12, 16, 17):
+        pat = base[:L]
+        for kind, enc in (("ascii", None), ("dna", bnp.DNAEncoding)):
+            rows = [pat, "G" + pat + "C"] + [pat[:d] + ("A" if pat[d] != "A" else "C") + pat[d + 1:] + "T" for d in range(L)]
+            exp = [[r[i:i + L] == pat for i in range(len(r) - L + 1)] for r in rows]
+            n += 1
+            try:
+                seq = bnp.as_encoded_array(rows, enc) if enc else bnp.as_encoded_array(rows)
+                got = [[bool(v) for v in row] for row in match_string(seq, pat).tolist()]
+            except Exception as e:
+                got = ("raised", type(e).__name__)
+            if got != exp and len(res["violations"]) < 5:
+                bad = next((i for i, (g_, e_) in enumerate(zip(got, exp)) if g_ != e_), None) if isinstance(got, list) else None
+                res["violations"].append(dict(obligation="long-pattern-probe", inputs=dict(pattern=pat, rows=rows, encoding=kind), output=repr(got)[:300],
+                                              why=f"[real run, concrete probe] match_string(rows, {pat!r}) ({kind}): row {bad} {rows[bad] if bad is not None else ''} "
+                                                  f"gives {got[bad] if bad is not None else got}, expected {exp[bad] if bad is not None else exp}"))
+    res["summary"] += f"; match_string probed with {n} long patterns"
 
 
 def _motif_probe(res):
